@@ -1,9 +1,10 @@
 #!/bin/bash
-# tools/seed_matrix.sh [seed-dir...]  : run the registered checks of the seeded property (and optional extra ids) on each seeded change
+# tools/seed_matrix.sh [seed-dir...]  : run the check of the seeded property (plus $EXTRA ids) on each seeded change
 cd "$(dirname "$0")/.."
-for d in "${@:-seeded/*}"; do
-  [ -f $d/patch.diff ] || continue
-  P=$(basename $d | cut -d- -f1)
-  IDS="$P ${EXTRA:-}"
-  echo "== $(basename $d): $(tools/mutant.sh $d/patch.diff $IDS | cut -c1-330 | tr '\n' ';')"
+if [ $# -eq 0 ]; then set -- seeded/*; fi
+for d in "$@"; do
+  [ -f "$d/patch.diff" ] || continue
+  P=$(basename "$d" | cut -d- -f1)
+  [ -f rules/$(echo $P | tr A-Z a-z).py ] || { echo "== $(basename $d): no check for $P yet"; continue; }
+  echo "== $(basename $d): $(tools/mutant.sh $d/patch.diff $P ${EXTRA:-} | cut -c1-300 | tr '\n' ';')"
 done
